@@ -4,6 +4,7 @@ import (
 	"fmt"
 	"regexp"
 	"sort"
+	"strings"
 
 	"github.com/gookit/rux"
 
@@ -42,6 +43,9 @@ var c02Pool = []string{
 	`/rp/{p:(?:\d{4})-(?:0[1-9]|1[0-2])}`,
 	`/tk/{t:(?:[a-z]+)(?:\d+)}/k`,
 	`/pic/{kind:(?:jpe?g)|(?:png)}/x`,
+	// literal dots in front of the first variable of routes that have no complete literal first segment
+	`/sm.{ext}`,
+	`/v1.0[/{x}]`,
 }
 
 // values tried in addition to c02Values for one pattern
@@ -123,6 +127,14 @@ func c02Paths(pattern string) []string {
 		base = append(base, p)
 	}
 	sort.Strings(base)
+	// a literal dot of the pattern replaced by another character / removed
+	for i, p := range base {
+		if k := strings.IndexByte(p, '.'); k >= 0 && i%7 == 0 {
+			for _, rep := range []string{"-", "x", "/", ""} {
+				set[p[:k]+rep+p[k+1:]] = true
+			}
+		}
+	}
 	// perturbations of a spread subset (deterministic)
 	for i, p := range base {
 		if i%7 == 0 {
@@ -252,10 +264,19 @@ func c02Run(c c02Case, st *fw.Stats) []fw.Viol {
 			add("register:panic", fmt.Sprintf("registering GET %s panicked: %v", c.Pattern, pv))
 			return viols
 		}
+		// a sibling router built from the very same option values, holding the same pattern with other variable names:
+		// it is served every request first (two routers must not share anything through their options)
+		var sib *rux.Router
+		if tw := c02Twin(c.Pattern); tw != c.Pattern && c.Cache > 0 && c.Twin == "" && !c.Head && !c.Dump {
+			sib, _ = buildRouter([]refmodel.RouteDef{{Path: tw, Methods: []string{"GET", "HEAD"}}}, nil, opts...)
+		}
 		seq := []string{c.First, q, c.First, q}
 		for i, p := range seq {
 			if c.Dump && i%2 == 0 {
 				c02Inspect(r)
+			}
+			if sib != nil {
+				_, _ = serve(sib, "GET", p)
 			}
 			st.Evals++
 			np := refmodel.Norm(p, c.Strict)
@@ -376,7 +397,7 @@ func c02Redispatch(c c02Case, st *fw.Stats, add func(sig, msg string), viols *[]
 var c02Spec = fw.Spec[c02Case]{
 	ID:    "C02",
 	Level: "model_checking",
-	Rule: "complete product per pattern (20 patterns): every ordered pair (p,q) of candidate paths (all value tuples over 12 values substituted at every optional depth, plus perturbations) requested as the history p,q,p,q on routers with cache off / capacity 1 / capacity 2, via Match and ServeHTTP; " +
+	Rule: "complete product per pattern (22 patterns; a sibling router built from the same option values and holding the pattern with other variable names is served every request first): every ordered pair (p,q) of candidate paths (all value tuples over 12 values substituted at every optional depth, plus perturbations) requested as the history p,q,p,q on routers with cache off / capacity 1 / capacity 2, via Match and ServeHTTP; " +
 		"oracle = back-tracking reference matcher (all decompositions); plus every matching path re-dispatched by its handler (HandleContext) to a static, a dynamic and an optional route, whose handlers must see exactly their own parameters; non-trivial = a request whose path matches the dynamic pattern",
 	Assume: []string{"values and patterns are drawn from the stated alphabets", "handlers treat Params as read-only"},
 	Bounds: func(tier string) map[string]any {
